@@ -20,6 +20,14 @@ CHECKS = {
             "may go to either neighbour for non-dyadic float widths; PointsPerIntervalSlicer only with len(data) >= n_points",
             "DESIGN.md §4 C10"),
 }
+CHECKS["C14"] = ("model_checking",
+    "TLC model checking of the register/callback protocol (DepFit.tla), TLC-generated behaviours replayed on real DependenceFunction objects, trace validation through the spec's own FitCall operator; fit-quality records judged by TLC",
+    "The dependency-order half is a protocol over a finite graph: TLC explores six dependence graphs x all declaration orders x all fit-call orders x 2-3 rounds "
+    "(mutation NoRefit must violate), emits every behaviour, and each is executed on real objects with _fit wrapped; Trace_C14 replays the recorded history through "
+    "DepFitOps!FitCall and compares internal fit sequence, _may_fit, |_fitted_conditioners| and freshness of the parameters (lstsq with the current conditioner "
+    "parameters) after every call. Bounds/constraints/optimality are judged per executed fit (exploration-strength: sampled shapes, local optimality on a stencil).",
+    "TLC; numpy.linalg.lstsq; objective convention sum(((f-y)/sigma)^2); local (not global) optimality; tolerances stated in spec/Trace_C14.tla",
+    "DESIGN.md §4 C14")
 
 NOT_YET = {}
 
